@@ -1,6 +1,7 @@
 import FsModel.Blocks
 import FsModel.Pool
 import FsModel.Pool3
+import FsModel.Pool4
 import FsModel.Hb
 import FsModel.Generated
 import FsModel.DriverMain
@@ -143,5 +144,32 @@ example : (Fs.Pool.runTrace ⟨false⟩ (Fs.Pool.init 1 [Fs.Pool.Op.pause, Fs.Po
     (Fs.Pool.stuck ⟨false⟩) = some true := by decide
 
 example : Fs.Hb.round ⟨.relaxed, .relaxed, .relaxed, .relaxed⟩ = (false, false) := by decide
+
+/-! ### extended protocol (`Fs.Pool4`): stop / resize / destruction, exactly-once, termination -/
+
+/-- the steps of the C++ pool that `Fs.Pool4` transcribes are all present in the source
+(regenerated on every run; a change of the protocol's shape falsifies this `decide`) -/
+theorem source_protocol_shape : Fs.Gen.poolProtocolShape.all (·.2) = true := by decide
+
+/-- **exactly once**: between API calls every worker has executed its block exactly once per
+`run_blocks` call that gave it one - any pool size, any program of run / pause / resume / resize /
+stop the library can issue, any interleaving -/
+theorem exactly_once (n : Nat) (ops : List Fs.Pool4.Op) (hops : Fs.Pool4.okProg false false ops = true)
+    (s : Fs.Pool4.S) (h : Fs.Pool4.Reachable (Fs.Pool4.init n ops) s) (hc : s.cpc = .ready) :
+    ∀ i, s.execs i = s.want i :=
+  Fs.Pool4.exactly_once n ops hops s h hc
+
+/-- **no deadlock** with stop, resize and destruction included -/
+theorem no_stuck_state4 (n : Nat) (ops : List Fs.Pool4.Op) (hops : Fs.Pool4.okProg false false ops = true)
+    (s : Fs.Pool4.S) (h : Fs.Pool4.Reachable (Fs.Pool4.init n ops) s) (hnf : ¬ Fs.Pool4.finished s) :
+    ∃ t, (Fs.Pool4.step s t).isSome = true :=
+  Fs.Pool4.no_stuck_state n ops hops s h hnf
+
+/-- **termination**: no infinite execution (spins modelled as blocking: every fair schedule of the
+C++ terminates) -/
+theorem no_infinite_run (n : Nat) (ops : List Fs.Pool4.Op) (hops : Fs.Pool4.okProg false false ops = true)
+    (run : Nat → Fs.Pool4.S) (sched : Nat → Fs.Pool4.Tid) (h0 : run 0 = Fs.Pool4.init n ops)
+    (hstep : ∀ k, Fs.Pool4.step (run k) (sched k) = some (run (k + 1))) : False :=
+  Fs.Pool4.no_infinite_run n ops hops run sched h0 hstep
 
 end Fs.C11
